@@ -416,6 +416,92 @@ def _unroll_literal_loops(tree: ast.AST) -> None:
     ast.fix_missing_locations(tree)
 
 
+def _inline_branch_flags(tree: ast.AST) -> None:
+    """`ok = <boolean expression>` directly followed by `if ok: A else: B` (or `if not ok`), ok bound once and otherwise read only inside A
+    and B: the test is the expression itself, and inside A / B the name is the literal True / False."""
+    import copy as _copy
+
+    class Sub(ast.NodeTransformer):
+        def __init__(self, name, value):
+            self.name, self.value = name, value
+
+        def visit_Name(self, n):
+            if n.id == self.name and isinstance(n.ctx, ast.Load):
+                return ast.copy_location(ast.Constant(value=self.value), n)
+            return n
+    for fn in ast.walk(tree):
+        if not isinstance(fn, (ast.FunctionDef, ast.AsyncFunctionDef)):
+            continue
+        stores: Dict[str, int] = {}
+        for n in ast.walk(fn):
+            if isinstance(n, ast.Name) and isinstance(n.ctx, ast.Store):
+                stores[n.id] = stores.get(n.id, 0) + 1
+        for owner in ast.walk(fn):
+            for fld in ("body", "orelse", "finalbody"):
+                blk = getattr(owner, fld, None)
+                if not (isinstance(blk, list) and blk and isinstance(blk[0], ast.stmt)):
+                    continue
+                k = 0
+                while k < len(blk) - 1:
+                    a, st = blk[k], blk[k + 1]
+                    k += 1
+                    if not (isinstance(a, ast.Assign) and len(a.targets) == 1 and isinstance(a.targets[0], ast.Name) and isinstance(st, ast.If)
+                            and isinstance(a.value, (ast.Compare, ast.BoolOp, ast.UnaryOp, ast.Call)) and stores.get(a.targets[0].id) == 1):
+                        continue
+                    if isinstance(a.value, ast.UnaryOp) and not isinstance(a.value.op, ast.Not):
+                        continue
+                    if isinstance(a.value, ast.Call) and not (isinstance(a.value.func, ast.Name) and a.value.func.id in ("any", "all", "bool", "isinstance", "callable")):
+                        continue
+                    v = a.targets[0].id
+                    t, pos = st.test, True
+                    if isinstance(t, ast.UnaryOp) and isinstance(t.op, ast.Not):
+                        t, pos = t.operand, False
+                    if not (isinstance(t, ast.Name) and t.id == v):
+                        continue
+                    loads = [n for n in ast.walk(fn) if isinstance(n, ast.Name) and n.id == v and isinstance(n.ctx, ast.Load)]
+                    inside = {id(n) for n in ast.walk(st)}
+                    if not all(id(n) in inside for n in loads):
+                        continue
+                    st.test = a.value if pos else ast.copy_location(ast.UnaryOp(op=ast.Not(), operand=a.value), a.value)
+                    tb, fb = (st.body, st.orelse) if pos else (st.orelse, st.body)
+                    tb[:] = [Sub(v, True).visit(x) for x in tb]
+                    fb[:] = [Sub(v, False).visit(x) for x in fb]
+                    k -= 1
+                    del blk[k]
+    ast.fix_missing_locations(tree)
+
+
+def _iter_while_to_for(tree: ast.AST) -> None:
+    """`it = iter(X)` ... `while (v := next(it, S)) is not S: BODY` (it used nowhere else) is `for v in X: BODY`."""
+    for fn in ast.walk(tree):
+        if not isinstance(fn, (ast.FunctionDef, ast.AsyncFunctionDef)):
+            continue
+        uses: Dict[str, int] = {}
+        for n in ast.walk(fn):
+            if isinstance(n, ast.Name):
+                uses[n.id] = uses.get(n.id, 0) + 1
+        for owner in ast.walk(fn):
+            for fld in ("body", "orelse", "finalbody"):
+                blk = getattr(owner, fld, None)
+                if not (isinstance(blk, list) and blk and isinstance(blk[0], ast.stmt)):
+                    continue
+                for k in range(len(blk) - 1):
+                    a, w = blk[k], blk[k + 1]
+                    if not (isinstance(a, ast.Assign) and len(a.targets) == 1 and isinstance(a.targets[0], ast.Name) and isinstance(a.value, ast.Call)
+                            and isinstance(a.value.func, ast.Name) and a.value.func.id == "iter" and len(a.value.args) == 1 and isinstance(w, ast.While) and not w.orelse):
+                        continue
+                    it = a.targets[0].id
+                    t = w.test
+                    if not (isinstance(t, ast.Compare) and len(t.ops) == 1 and isinstance(t.ops[0], ast.IsNot) and isinstance(t.left, ast.NamedExpr)
+                            and isinstance(t.left.target, ast.Name) and isinstance(t.left.value, ast.Call) and isinstance(t.left.value.func, ast.Name)
+                            and t.left.value.func.id == "next" and len(t.left.value.args) == 2 and isinstance(t.left.value.args[0], ast.Name)
+                            and t.left.value.args[0].id == it and ast.dump(t.left.value.args[1]) == ast.dump(t.comparators[0]) and uses.get(it) == 2):
+                        continue
+                    blk[k:k + 2] = [ast.copy_location(ast.For(target=ast.Name(id=t.left.target.id, ctx=ast.Store()), iter=a.value.args[0], body=w.body, orelse=[]), w)]
+                    break
+    ast.fix_missing_locations(tree)
+
+
 def _unflag_loops(tree: ast.AST) -> None:
     """single-exit loops with a flag back to early exits:
         flag = False; for ..: .. if c: flag = True; break ..      if flag: T (always leaves)  [else: F]
@@ -1097,6 +1183,8 @@ class Program:
                     tree = ast.parse(src, filename=path)
                 except SyntaxError as e:
                     raise AnalysisError(f"cannot parse {path}: {e}")
+                _iter_while_to_for(tree)
+                _inline_branch_flags(tree)
                 _unroll_literal_loops(tree)
                 tree = _SplitTupleAssign().visit(tree)
                 _splat_literal_dicts(tree)
